@@ -80,6 +80,9 @@ def check_property_file(pid: str, timeout=900):
 
     Returns dict(ok, theorems, closed, axioms: {thm: [names]}, bad_axioms, output)."""
     src = THEORIES / 'Properties' / f'{pid}.v'
+    if not src.exists():
+        return dict(ok=False, theorems=[], printed=[], closed=0, axioms={}, bad_axioms=[], rc=-2,
+                    output=f'{src} does not exist')
     text = strip_comments(src.read_text())
     theorems = re.findall(r'^\s*Theorem\s+(\w+)', text, re.M)
     printed = re.findall(r'Print Assumptions\s+(\w+)\s*\.', text)
